@@ -136,6 +136,40 @@ pub fn run(ctx: &'static Ctx) {
         }
         m.fetch_add(extra, Ordering::Relaxed);
     }
+    // an element that serialises to no bytes at all (an empty field name, a user object that is switched off): it is
+    // still an element, in the list-built package and in the builder alike
+    {
+        use acpi_tables::aml::{Name, Package, PackageBuilder, ONE, ZERO};
+        struct Nothing;
+        impl acpi_tables::Aml for Nothing {
+            fn to_aml_bytes(&self, _sink: &mut dyn acpi_tables::AmlSink) {}
+        }
+        let empty_name = Name::new_field_name("");
+        let empties: [(&str, &dyn acpi_tables::Aml); 2] = [("an object that emits nothing", &Nothing), ("Name::new_field_name(\"\")", &empty_name)];
+        for (what, e) in empties {
+            for pos in 0..3usize {
+                for total in 1..=3usize {
+                    if pos >= total {
+                        continue;
+                    }
+                    let kids: Vec<&dyn acpi_tables::Aml> = (0..total).map(|i| if i == pos { e } else if i % 2 == 0 { &ONE as &dyn acpi_tables::Aml } else { &ZERO }).collect();
+                    let a = catch(|| crate::util::ser(&Package::new(kids.clone())));
+                    let b = catch(|| {
+                        let mut pb = PackageBuilder::new();
+                        for k in &kids {
+                            pb.add_element(*k);
+                        }
+                        crate::util::ser(&pb)
+                    });
+                    m.fetch_add(1, Ordering::Relaxed);
+                    ctx.tr(2);
+                    if a != b {
+                        ctx.violation_sized("alt:package:empty-element", total as u64, || format!("package of {} elements with {} at position {}: Package::new gives {:?}, PackageBuilder gives {:?}", total, what, pos, a.as_ref().map(|x| hex(x)), b.as_ref().map(|x| hex(x))), || json!({"family":"alt-paths","what":what,"position":pos,"elements":total}));
+                    }
+                }
+            }
+        }
+    }
     ctx.engine("E4.package-builder", json!({"pairs": m.load(Ordering::Relaxed), "element_counts": "0..=255 x 9 fillers; all lists <=3; nested"}));
 
     // ---- borrowed vs owned strings, every length 0..=300 (and a long one)
